@@ -14,5 +14,7 @@ mcs = dprops.mine_mustcalls(w)
 json.dump(mcs, open(os.path.join(facts.VERIF, 'rules', 'mustcall.json'), 'w'), indent=1)
 lp = dprops.mine_looped(w)
 json.dump(lp, open(os.path.join(facts.VERIF, 'rules', 'looped.json'), 'w'), indent=1)
-print('looped pairs', len(lp))
+bf = dprops.mine_boundflow(w)
+json.dump(bf, open(os.path.join(facts.VERIF, 'rules', 'boundflow.json'), 'w'), indent=1)
+print('looped pairs', len(lp), 'bound-flow triples', len(bf))
 print('d4 classes', len(out_d4), 'sites', sum(len(v) for v in out_d4.values()), '; must-call pairs', len(mcs))
